@@ -24,6 +24,8 @@ pub struct Gen {
     pub lambda_writes: std::collections::BTreeSet<String>,
     /// one statement in `cancel_den` gets a one-shot cancellation (0 = never)
     pub cancel_den: u32,
+    /// closures with captured inner-scope cells exist in the session (see freevars::hidden_cells)
+    pub hidden_cells: bool,
 }
 
 impl Drop for Gen {
@@ -57,6 +59,7 @@ impl Gen {
             declined: Vec::new(),
             lambda_writes: std::collections::BTreeSet::new(),
             cancel_den: 0,
+            hidden_cells: false,
         }
     }
 
@@ -164,6 +167,11 @@ impl Gen {
                     hidden_state: false,
                 });
                 self.lambda_writes.extend(crate::freevars::lambda_free_writes(&self.script.stmts.last().unwrap().ex));
+                let had_hidden = self.hidden_cells;
+                if !crate::freevars::hidden_cells(&self.script.stmts.last().unwrap().ex).is_empty() {
+                    self.hidden_cells = true;
+                }
+                let _ = had_hidden;
                 // a cancellation needs the set of variables the statement may write
                 if self.script.stmts.last().unwrap().faults.iter().any(|f| matches!(f, Fault::Cancel(_))) {
                     let ex = self.script.stmts.last().unwrap().ex.clone();
@@ -172,7 +180,9 @@ impl Gen {
                         ws.extend(self.lambda_writes.iter().cloned());
                     }
                     let top: Vec<String> = self.vars().into_iter().map(|(n, _)| n).collect();
-                    let hidden = ws.iter().any(|n| !top.contains(n));
+                    let hidden = ws.iter().any(|n| !top.contains(n))
+                        || (crate::freevars::contains_call(&ex)
+                            && (self.hidden_cells || !crate::freevars::hidden_cells(&ex).is_empty()));
                     let st = self.script.stmts.last_mut().unwrap();
                     st.write_set = ws.into_iter().collect();
                     st.hidden_state = hidden;
